@@ -210,6 +210,16 @@ func scenarios() []scen {
 			}
 			return []*reftx.Block{mk(true), mk(false)}
 		}},
+		{name: "S2-commit-then-reorg-restores-from-undo-file", qb: 2, tb: 3, horizon: 6000, events: []string{"b0", "b1", "b2"}, expect: "b0=ok,b1=ok,b2=ok", blocks: func(p *chainx.Prefix) []*reftx.Block {
+			// A1 spends outputs of three records of one bucket (records are rewritten, the old
+			// ones freed, undo data is written by a concurrent goroutine); B1,B2 then force the
+			// undo of A1 from that undo file
+			n := p.Named
+			a1 := blk(p, p.Tip, p.Height+1, 10, 0, grind(sp([]OP{n["F0.0"], n["F1.0"], n["F2.0"]}, []reftx.Out{o1(30e8)}), 0x42), sp([]OP{n["F0.1"]}, []reftx.Out{o1(10e8)}))
+			b1 := blk(p, p.Tip, p.Height+1, 11, 0, sp([]OP{n["F1.1"]}, []reftx.Out{o1(10e8)}))
+			b2 := blk(p, b1.Hash(), p.Height+2, 11, 0)
+			return []*reftx.Block{a1, b1, b2}
+		}},
 		{name: "S1-commit-failing-script-then-early-return", qb: 2, tb: 3, horizon: 4000, events: []string{"b0", "b1"}, expect: "b0=refused-connect,b1=ok", blocks: func(p *chainx.Prefix) []*reftx.Block {
 			n := p.Named
 			t1 := sp([]OP{n["F0.0"], n["F1.0"]}, []reftx.Out{o1(20e8)})
@@ -521,6 +531,14 @@ func main() {
 	utxo.UTXO_WRITING_TIME_TARGET = 0
 	_ = chain.AbortNow
 	_ = btc.COIN
+	// The client routes UTXO records through its own allocator, where freed memory is
+	// recycled at once. With the Go heap a use-after-free would go unnoticed, so the
+	// harness poisons every freed record: by contract nobody may read it any more.
+	utxo.Memory_Free = func(p *[]byte) {
+		for i := range *p {
+			(*p)[i] = 0xEE
+		}
+	}
 	vos.Hook = fileHook
 	if *racePass > 0 {
 		vos.Hook = nil
